@@ -438,11 +438,15 @@ def gen_spec(rng, n_objects=None, vrl=None, types=None, multi_set=True, with_uni
         ref = rng.choice([None, None, 1, 5, 200, 20000])
         while ref is not None and ref in origin_refs:
             ref += 1
+        osn = None if (not origin_refs or not named_origin_sets) else rng.choice([None, 'ANCESTORS', 'B-ORIGINS', 'Z'])
+        if named_origin_sets and not origin_refs and rng.random() < 0.8:
+            osn = rng.choice(['RUN-2', 'M-SET'])
         origin_refs.append(ref if ref is not None else len(origin_refs))
-        ops.append({'op': 'origin', 'name': g_name(rng), 'kw': kw, 'origin': ref, 'set_name': None})
+        ops.append({'op': 'origin', 'name': g_name(rng), 'kw': kw, 'origin': ref, 'set_name': osn})
         new_obj('origin')
+    named_origin_sets = rng.random() < 0.4
     origin_refs = []
-    n_origins = rng.choice([1, 1, 1, 2, 3])
+    n_origins = rng.choice([2, 3]) if named_origin_sets else rng.choice([1, 1, 1, 2, 3])
     planned_refs = [rng.choice([3, 7, 40]) for _ in range(2)]
     if origin_first:
         add_origin()
@@ -459,7 +463,7 @@ def gen_spec(rng, n_objects=None, vrl=None, types=None, multi_set=True, with_uni
                 org = None
         ops.append({'op': 'add', 'type': tkey, 'name': g_name(rng), 'kw': kw, 'set_name': sn, 'origin': org})
         new_obj(tkey)
-        if len(origin_refs) < n_origins and origin_refs and rng.random() < 0.3:
+        if len(origin_refs) < n_origins and origin_refs and rng.random() < (0.7 if named_origin_sets else 0.3):
             add_origin()
     # channels and frames
     chans = []
